@@ -54,6 +54,7 @@ type c06Run struct {
 }
 
 const c06WaitBound = 25 * time.Second
+const c06StallQuiet = 4 * time.Second
 
 func TestVerif_C06_Replication(t *testing.T) {
 	var behs []c06Beh
@@ -299,6 +300,10 @@ func c06Counters(st db.ReplicationStatus) [8]int64 {
 
 // wait: caught-up point.  Caught up == every running direction's safe processed sequence has reached the sequence of
 // every document on its source AND the counters did not move for a number of consecutive polls.
+// Fallback ("stalled"): when the pulling peer REFUSED a transferred revision (rejected_by_local > 0) that revision's sequence
+// is never acknowledged to the checkpointer, so the safe sequence stays below it until the replication is restarted; the
+// point is then taken when the counters have not moved for c06StallQuiet (the property's observation point is "status
+// reports caught-up and sequence counters stop moving").  The line says so (stalled) and the driver counts it.
 func (r *c06Run) wait() {
 	if !r.running {
 		return
@@ -306,26 +311,32 @@ func (r *c06Run) wait() {
 	deadline := time.Now().Add(c06WaitBound)
 	stable := 0
 	var last [8]int64
-	ok := false
+	lastMove := time.Now()
+	ok, stalled := false, false
 	var st db.ReplicationStatus
 	for time.Now().Before(deadline) {
 		var got bool
 		st, got = r.status(r.replID)
-		if got && r.caughtUp(st) && c06Counters(st) == last {
+		if got && c06Counters(st) == last {
 			stable++
-			if stable >= 6 {
-				ok = true
-				break
-			}
 		} else {
 			stable = 0
+			lastMove = time.Now()
 		}
 		if got {
 			last = c06Counters(st)
 		}
+		if got && stable >= 6 && r.caughtUp(st) {
+			ok = true
+			break
+		}
+		if got && st.Status == db.ReplicationStateRunning && st.RejectedLocal > 0 && time.Since(lastMove) > c06StallQuiet {
+			ok, stalled = true, true
+			break
+		}
 		time.Sleep(8 * time.Millisecond)
 	}
-	r.tw.Emit(vObj{"a": "Sync", "ok": ok, "views": r.views(), "stats": c06Stats(st)})
+	r.tw.Emit(vObj{"a": "Sync", "ok": ok, "stalled": stalled, "views": r.views(), "stats": c06Stats(st)})
 	if ok {
 		r.rerun()
 	}
